@@ -345,6 +345,45 @@ def banner_lengths():
     return problems
 
 
+def defaults_roundtrip():
+    """objects built with every defaulted constructor argument left out (required ones taken from a parsed vector):
+    the library's own default values must survive compose + parse as well"""
+    import attr  # pylint: disable=import-outside-toplevel
+    from symcheck.harness import registry  # pylint: disable=import-outside-toplevel
+    problems, built = [], 0
+    for cls, _ in registry.seeded_classes():
+        if not attr.has(cls):
+            continue
+        fields = attr.fields(cls)
+        if not any(field.default is not attr.NOTHING for field in fields if field.init):
+            continue
+        for _, parsed in registry.accepted_seeds(cls)[:2]:
+            if not hasattr(parsed, 'compose'):
+                continue
+            required = {field.name.lstrip('_'): getattr(parsed, field.name) for field in fields
+                        if field.init and field.default is attr.NOTHING}
+            try:
+                obj = cls(**required)
+                composed = bytes(obj.compose())
+            except Exception:  # pylint: disable=broad-except
+                continue        # the defaults do not combine with these required values: not a constructible object
+            built += 1
+            try:
+                again = cls.parse_exact_size(composed)
+            except Exception as exc:  # pylint: disable=broad-except
+                problems.append('%s built with its defaults composes to bytes its parser rejects: %s' % (
+                    cls.__name__, type(exc).__name__))
+                continue
+            if not deep_eq(again, obj):
+                differing = [field.name for field in fields
+                             if not deep_eq(getattr(again, field.name), getattr(obj, field.name))]
+                problems.append('%s built with its defaults differs from the object parsed from its own bytes in %s' % (
+                    cls.__name__, ', '.join(differing)))
+    if built < 10:
+        problems.append('only %d objects could be built from defaults' % built)
+    return sorted(set(problems))
+
+
 def constructed(a: int, b: int, c: int, data: bytes, flag: bool) -> bool:
     """post: _"""
     if len(data) > P['B'] or not (0 <= a < 2 ** 64 and 0 <= b < 2 ** 64 and 0 <= c < 2 ** 64):
@@ -424,6 +463,9 @@ def shards(tier, seed):
         if shard.label.startswith(('shape/spf', 'shape/dns_name', 'shape/txt_multi')):
             shard.label = 't/' + shard.label[len('shape/'):]
             out.append(shard)
+    out.append(Shard(MOD, 'defaults_roundtrip', 'k/defaults', {}, kind='concrete',
+                     bounds='every seeded attrs class with defaulted constructor arguments: built with the defaults, '
+                            'composed, parsed, compared field by field (natively)'))
     out.append(Shard(MOD, 'banner_lengths', 'k/ssh_banner_lengths', {}, kind='concrete',
                      bounds='identification strings of 250..255 bytes with and without comment (natively)'))
     return out
